@@ -415,8 +415,7 @@ def undeclare_mix(ctx, order, reordering):
 
 def full_table(ctx, n, limit_extra):
     """a call that fails because `max_nodes` is reached (`RuntimeError`): implementation and
-    oracle only -- the model has an unbounded supply of node numbers, so this stream is not
-    part of the correspondence.  Held references keep their functions, counts stay exact,
+    oracle only (the correspondence with the model is the stream `full_table_model`).  Held references keep their functions, counts stay exact,
     `_min_free` stays the least free number, and work continues once the limit is raised."""
     import dd.bdd as _ddb
     rng = ctx.rng
@@ -481,6 +480,140 @@ def full_table(ctx, n, limit_extra):
     # (the shutdown assertion of dd wants zero counts)
     b._succ = {1: b._succ[1]}
     b._ref = {1: 0}
+
+
+def full_table_model(ctx, n, dynamic):
+    """`max_nodes` in the correspondence: histories run through the session (the extracted
+    model AND dd, state compared after every operation) in which `bdd.max_nodes = k` is set
+    to tight values and then operations of every kind that creates nodes are called --
+    apply / ite / let / quantify / reorder (sifting and explicit orders) / swap / collections /
+    raising the limit again -- so that `RuntimeError('full ...')` is met inside
+    `find_or_add` (midway through an operation) and at the pre-check of `swap` (also inside
+    sifting, also inside the sifting of a dynamic reordering).  Oracle: the manager stays
+    canonical with exact counts after every call, held references keep their functions, and
+    work continues once the limit is lifted."""
+    rng = ctx.rng
+    order = list(range(n))
+    rng.shuffle(order)
+    M = Mgr(ctx, f'full table (model) n={n} dynamic={dynamic}', n, order)
+    s = M.s
+    names = [vname(i) for i in range(n)]
+    ledger = {1: 1}
+    held = []
+    full = (1 << (1 << n)) - 1
+
+    def hold(u):
+        if u is not None and abs(u) in M.b._succ and abs(u) != 1:
+            M.op('incref', u)
+            ledger[abs(u)] = ledger.get(abs(u), 0) + 1
+            held.append(u)
+
+    for _ in range(2):
+        hold(gen.build_tt(s, 0, rng.randrange(full + 1), list(range(n))))
+    M.op('gc', None)
+    if dynamic:
+        M.op('configure', True)
+        M.op('set_last_len', rng.choice([2, 3, 4]))
+    reached = 0
+
+    def snapshot():
+        memo = {}
+        return {u: oracle.tt_fast(M.b, u, names, memo) for u in held}
+
+    for step in range(14):
+        b = M.b
+        k = rng.random()
+        if k < 0.3:
+            # a tight limit: just above the table size, or just above the largest number
+            extra = rng.choice([0, 1, 1, 2, 3, 4])
+            lim = (len(b) + 1 + extra) if rng.random() < 0.6 else (max(b._succ) + 1 + extra)
+            M.op('set_max_nodes', lim)
+            continue
+        if k < 0.36:
+            M.op('set_max_nodes', None)
+            continue
+        before = snapshot()
+        cfg_before = b._last_len is None
+        live = held or [1]
+        u = rng.choice(live)
+        v = rng.choice(live)
+        what = rng.choice(['build', 'apply', 'ite', 'let_bool', 'let_ref', 'let_name', 'quantify',
+                           'sift', 'reorder', 'swap', 'gc', 'cube', 'var'])
+        if what == 'build':
+            r = gen.build_tt(s, 0, rng.randrange(full + 1), list(range(n)))
+            if r is not None and rng.random() < 0.4:
+                hold(r)
+        elif what == 'apply':
+            M.op('apply', rng.choice(['and', 'or', 'xor', 'equiv', 'implies']), u, v, None)
+        elif what == 'ite':
+            M.op('ite', u, v, -rng.choice(live))
+        elif what == 'let_bool':
+            M.op('let_bool', {rng.randrange(n): rng.random() < 0.5}, u)
+        elif what == 'let_ref':
+            M.op('let_ref', {rng.randrange(n): v}, u)
+        elif what == 'let_name':
+            a, c = rng.randrange(n), rng.randrange(n)
+            M.op('let_name', {a: c}, u)
+        elif what == 'quantify':
+            M.op('quantify', u, 'n', rng.sample(range(n), rng.randint(1, max(1, n - 1))), rng.random() < 0.5)
+        elif what == 'cube':
+            M.op('cube', {i: rng.random() < 0.5 for i in rng.sample(range(n), rng.randint(1, n))})
+        elif what == 'var':
+            M.op('var', rng.randrange(n))
+        elif what == 'sift':
+            M.op('reorder', None)
+        elif what == 'reorder':
+            o = list(range(n))
+            rng.shuffle(o)
+            M.op('reorder', {i: o[i] for i in range(n)})
+        elif what == 'swap' and n >= 2:
+            x = rng.randrange(n - 1)
+            M.op('swap', *((x, x + 1) if rng.random() < 0.5 else (x + 1, x)))
+        else:
+            M.op('gc', None)
+        res = s.last_result()
+        failed_full = (not res.startswith('ok:')) and 'RuntimeError' in (getattr(s.impl, 'last_exc', '') or '')
+        ctx.case(('full-table-model', what, n, dynamic, failed_full), bool(held))
+        if failed_full:
+            reached += 1
+            ctx.count('full-table-model:reached:' + what)
+        if res == 'err:needs_reordering':
+            ctx.violation('C17:signal-escaped', f'{what} raised the internal reordering signal', M.case())
+            break
+        ext = dict(ledger)
+        bad = oracle.check_table(M.b, external=ext)
+        if bad:
+            ctx.violation('C17:full-table', f'after {what} ({res}) the manager is inconsistent: {bad[:3]}', M.case())
+            break
+        after = snapshot()
+        if any(after.get(u0) != t0 for u0, t0 in before.items()):
+            ctx.violation('C17:reference-changed', f'{what} ({res}) changed a held reference', M.case())
+            break
+        if sorted(M.b.vars.values()) != list(range(len(M.b.vars))):
+            ctx.violation('C17:order-not-bijection', f'{M.b.vars}', M.case())
+            break
+        if (M.b._last_len is None) != cfg_before:
+            ctx.violation('C17:configuration-changed', f'{what} ({res}) switched dynamic reordering', M.case())
+            break
+        if failed_full:
+            M.op('assert_consistent')
+            if not s.ok():
+                ctx.violation('C17:not-canonical', 'BDD.assert_consistent() fails after RuntimeError(full)', M.case())
+                break
+    ctx.count('full-table-model' + (':reached' if reached else ''))
+    # later work: lift the limit (dynamic reordering off: the intermediate results of the
+    # construction below are not referenced)
+    M.op('set_max_nodes', None)
+    M.op('configure', False)
+    t = rng.randrange(full + 1)
+    r = gen.build_tt(s, 0, t, list(range(n)))
+    if r is None or M.tt(r) != t:
+        ctx.violation('C17:later-call', 'a function built after the limit was lifted is wrong', M.case())
+    for u in held:
+        M.op('decref', u)
+    M.op('configure', False)
+    M.op('gc', None)
+    ctx.sample(dict(stream=s.label, first_lines=s.lines[:10]))
 
 
 def full_table_ops(ctx, n, op, extra):
@@ -816,6 +949,9 @@ def run(ctx):
     for n in (2, 3, 4):
         for extra in ((1, 3) if q else (1, 2, 3, 5, 8, 13)):
             full_table(ctx, n, extra)
+    for n in (2, 3, 3, 4):
+        for _ in range(6 if q else 40):
+            full_table_model(ctx, n, dynamic=(rng.random() < 0.3))
     for op in ('reorder', 'sift', 'swap', 'dynamic', 'let', 'quantify', 'load-pickle', 'load-json'):
         for n in (3, 4):
             for extra in ((0, 1, 2, 4) if q else (0, 1, 2, 3, 4, 6, 9)):
